@@ -77,12 +77,25 @@ CLAIMED = {
             'container; non-interference for every history of operations whose write sets avoid what is observed. Random histories over live '
             'handlers and managers are observed on the real code.',
             NOTE + 'write sets are measured by snapshot diff over a hand-written catalogue of public calls.', 'DESIGN.md 5/C16'),
+    'C17': (T + ': tree induction for replace_namespace, validation and declaration logic; escaping lemmas',
+            'PARTIAL. Proved: replace_namespace renames exactly the elements and attributes of the old namespace and nothing else (all trees), '
+            'root validation accepts exactly the allowed tag / required attribute combinations, one XML declaration, character-data round '
+            'trip for all strings. Modelled: lxml parse / serialise; the tree-level round trip, agreement with xml.etree and parse_root vs '
+            'full parse are established by the correspondence on generated documents and constructor programs.',
+            NOTE + 'lxml and expat are the environment.', 'DESIGN.md 5/C17'),
     'C08': (T + ': grammar spec <-> _abbreviate, dict semantics',
             'Machine-checked proof that, in the model of capabilities.py, lookup of an advertised URI succeeds, shorthand lookup succeeds iff the '
             'grammar of RFC capability/base URNs says so (both URN forms), results are the right capability, parameters are exactly the '
             'well-formed k=v pairs and the only failure is KeyError - for all URI lists and keys. The model is compared with the real '
             'Capabilities class on thousands of grammar-generated cases per run; an independent regex spec is evaluated on the implementation.',
             NOTE + 'Python str.split/startswith as modelled.', 'DESIGN.md 5/C08'),
+    'C10': (T + ': tree induction for the reply transforms; composition of framing and dispatch theorems',
+            'PARTIAL. Proved: for all trees the Junos transform keeps element structure, order, non-blank text, comments and attribute values and '
+            'leaves no namespace; the ALU transform only un-namespaces element names; SR OS is the identity; data is the <data> child; a '
+            'request\'s raw reply is a received message carrying its id (C03) which is an exact frame payload (C01/C14). Modelled: libxml2 / '
+            'libxslt. Random documents x reply classes x profiles run through the real request path and are compared with the model and '
+            'with an xml.etree reading of what the server sent; huge text / deep trees with huge_tree on.',
+            NOTE + 'which blank text nodes a remove_blank_text parser drops is libxml2 heuristics: compared modulo blank text.', 'DESIGN.md 5/C10'),
     'C11': (T + ': queue invariant over all histories',
             'Proof that taken ++ queued notifications are exactly the well-formed notifications received, in order, that a notification changes '
             'no request and never fails the session for any profile, and that an empty take returns nothing. Lock-step histories for all 14 '
